@@ -192,6 +192,81 @@ class Histories(Space):
                        transitions=len(case), traces=1)
 
 
+# ---- the same document under option sets that differ in ONE dimension (a memo keyed on too little collides exactly there)
+DOCS2 = [
+    "aaaa bbbb cccc dddd eeee ffff gggg hhhh - iiii jjjj kkkk llll mmmm nnnn oo 1. pppp qqqq rrrr # ssss tttt uuuu vv > wwww\n",   # markers land at line starts at width 40
+    "He said \"this is it\"... and it's fine. Another sentence follows here now. - And a third one ends it all.\n",
+    "- item one is long enough to wrap around the line here\n- item two \"q\"...\n\n1. x\n\n2. y\n",
+    "# **Bold head**\n\n> quoted text that is long enough to wrap around at forty columns. Second sentence.\n",
+    "`code span here` and [a link with text](http://u.v/w) {% tag a=\"b c\" %} then words to wrap around the forty columns\n",
+    "First line ends here.\\\nsecond after a hard break... and \"more\" text that wraps around at the width given here.\n",
+]
+OPTS2 = ([dict(width=40, plaintext=True), dict(width=30, semantic=False, cleanups=False)]
+         + [dict(width=40, semantic=sem, cleanups=ty, smartquotes=ty, ellipses=ty, list_spacing=ls)
+            for sem in (False, True) for ty in (False, True) for ls in ("preserve", "loose")])
+ACTIONS2 = [(d, o) for d in range(len(DOCS2)) for o in range(len(OPTS2))]
+_BASE2 = None
+
+
+def baselines2():
+    global _BASE2
+    if _BASE2 is None:
+        _BASE2 = [in_fresh_process(lambda d=d, o=o: {"out": reformat_text(DOCS2[d], **OPTS2[o])}) for d, o in ACTIONS2]
+    return _BASE2
+
+
+class SameDocHistories(Space):
+    """Every ordered pair (thorough: triple) of option sets applied to the same document in one fresh process."""
+
+    prop = "C13"
+    name = "histories-same-document"
+
+    def __init__(self, tier):
+        self.depth = 2 if tier == "quick" else 3
+        self.floors = {"options-differ-in-output": 300}
+        self.base = baselines2()
+
+    def cases(self):
+        n = len(OPTS2)
+        for d in range(len(DOCS2)):
+            for i in range(n):
+                for j in range(n):
+                    if self.depth == 2:
+                        yield (d, i, j)
+                    else:
+                        for k in range(n):
+                            yield (d, i, j, k)
+
+    def describe(self, case):
+        return {"calls": [{"doc": DOCS2[case[0]], "options": OPTS2[o]} for o in case[1:]]}
+
+    def smaller(self, case):
+        if len(case) > 3:
+            yield case[:2] + case[3:]
+            yield case[:3]
+
+    def evaluate(self, case):
+        d, seq = case[0], case[1:]
+
+        def run():
+            return {"outs": [reformat_text(DOCS2[d], **OPTS2[o]) for o in seq], "fps": [fingerprint()]}
+
+        if _WARM:
+            raise RuntimeError("HARNESS ERROR: history case evaluated in a process that already called flowmark")
+        res = in_fresh_process(run)
+        if "error" in res:
+            return Outcome(viol=[("history:exception", res)])
+        viol = []
+        for pos, (o, out) in enumerate(zip(seq, res["outs"])):
+            alone = self.base[d * len(OPTS2) + o]["out"]
+            if out != alone:
+                viol.append(("history:output-depends-on-earlier-calls", {"position": pos, "doc": DOCS2[d], "options": OPTS2[o], "after": out,
+                                                                         "alone": alone, "earlier_options": [OPTS2[x] for x in seq[:pos]]}))
+                break
+        tags = ["options-differ-in-output"] if len({self.base[d * len(OPTS2) + o]["out"] for o in seq}) > 1 else []
+        return Outcome(viol=viol, tags=tags, obs=hash(tuple(res["outs"])), states=set(res["fps"]), transitions=len(seq), traces=1)
+
+
 PAIRS = [
     (("[a] one\n\n[a]: http://one\n", dict(width=10, semantic=False, cleanups=False)), ("- x\n\n[a] two\n\n[a]: http://two\n", dict(width=10, semantic=False, cleanups=False))),
     (("`code span` [link text](u) {% tag a=\"b c\" %} words <b>html</b> to wrap\n", dict(width=12, semantic=False, cleanups=False)),
@@ -309,7 +384,7 @@ class Schedules(Space):
 
 
 def spaces(tier):
-    return [Histories(tier), Schedules(tier)]
+    return [Histories(tier), SameDocHistories(tier), Schedules(tier)]
 
 
 def extra(reports, tier):
